@@ -17,6 +17,8 @@ mod runner;
 mod server;
 mod session;
 mod tasks;
+#[cfg(rip_verif)]
+pub mod verif;
 mod workspace_lock;
 
 pub use continuities::{
